@@ -146,6 +146,17 @@ func cone(w *World, id string) []*FuncInfo {
 			// postcondition is proved for every iteration order - so that proof is part of this property
 			tagged = true
 		}
+		if !tagged {
+			// a site assertion, a loop invariant or a transition tagged with the property: the function's own obligations
+			// belong to the property (its callees only if they carry the property themselves)
+			for _, ls := range fi.Contract.Loops {
+				for _, cl := range append(append([]*Clause{}, ls.Invariants...), ls.Transitions...) {
+					if contains(cl.Tags, id) {
+						add(fi, false)
+					}
+				}
+			}
+		}
 		if tagged {
 			shallow := contains(fi.Contract.ShallowProps, id) && !fullTag(fi, id)
 			if id == "C09" && !contains(fi.Contract.Props, id) {
@@ -156,6 +167,17 @@ func cone(w *World, id string) []*FuncInfo {
 	}
 	sort.Slice(out, func(i, j int) bool { return out[i].Key < out[j].Key })
 	return out
+}
+
+// obFunc: the function part of an obligation key ("<pkg>:<func>" before ".<kind>[...]" / ".call[" / ".loop[" ...).
+func obFunc(k string) string {
+	best := len(k)
+	for _, m := range []string{".nopanic[", ".call[", ".loop[", ".own-", ".post[", ".pre[", ".assert[", ".effects[", ".frame[", ".reach[", ".propagates[", ".decreases", ".reachpath["} {
+		if i := strings.Index(k, m); i >= 0 && i < best {
+			best = i
+		}
+	}
+	return k[:best]
 }
 
 // fullTag: the function carries the property through an ensures tag (not only through a shallow property line).
@@ -287,6 +309,7 @@ type propRun struct {
 	witnesses    []map[string]any
 	selftest     map[string]any
 	unclaimed    int
+	lapsed       map[string]string // untagged loop invariants left out of this run (proof hints that no longer apply)
 }
 
 type violation struct {
@@ -296,7 +319,7 @@ type violation struct {
 }
 
 func runProperty(w *World, lib *SpecLib, p *Prover, id, tier string) *propRun {
-	run := &propRun{w: w, assumed: map[string]bool{}, axioms: map[string]bool{}, lemmasUsed: map[string]bool{}}
+	run := &propRun{w: w, assumed: map[string]bool{}, axioms: map[string]bool{}, lemmasUsed: map[string]bool{}, lapsed: map[string]string{}}
 	fis := cone(w, id)
 	sweep := id == "C08"
 	if sweep {
@@ -309,6 +332,9 @@ func runProperty(w *World, lib *SpecLib, p *Prover, id, tier string) *propRun {
 	var obs []*Ob
 	globals := map[string][]string{}
 	for _, fi := range fis {
+		if sweep && w.inlinedEverywhere(fi) {
+			continue // a helper without a contract that is executed through its body at every call site: checked there
+		}
 		r := verifyFunc(w, fi, sweep)
 		run.funcs = append(run.funcs, r)
 		if r.Unsupported != "" {
@@ -356,6 +382,7 @@ func runProperty(w *World, lib *SpecLib, p *Prover, id, tier string) *propRun {
 		run.assumed[n] = true
 	}
 	rs := p.dischargeAll(obs, globals)
+	rs = run.lapseInvariants(w, p, id, sweep, fis, rs, globals)
 	byKey := map[string]*keyAgg{}
 	for _, r := range rs {
 		a := byKey[r.Ob.Key]
@@ -392,6 +419,122 @@ func runProperty(w *World, lib *SpecLib, p *Prover, id, tier string) *propRun {
 		}
 	}
 	return run
+}
+
+// lapseInvariants: a loop invariant without a property tag is a proof hint. When such an invariant is no longer
+// provable (or no longer resolvable) after a change, its function is executed again without it - it is then neither
+// assumed nor checked. If every claimed obligation of the function is discharged that way, the function's contract still
+// holds and the run uses the new results (the lapsed invariants are listed in the evidence notes); otherwise the original
+// results stand and are reported.
+func (run *propRun) lapseInvariants(w *World, p *Prover, id string, sweep bool, fis []*FuncInfo, rs []*ObResult, globals map[string][]string) []*ObResult {
+	ledger := loadLedger(id)
+	assumedObs := loadAssumed()
+	claimed := func(o *Ob) bool {
+		if _, ok := assumedObs[o.Key]; ok {
+			return false
+		}
+		if ledger == nil {
+			return true
+		}
+		if _, ok := ledger.Keys[o.Key]; ok {
+			return true
+		}
+		return o.Kind == "nopanic" || o.Kind == "term"
+	}
+	byFunc := map[string]*FuncInfo{}
+	for _, fi := range fis {
+		byFunc[fi.Key] = fi
+	}
+	invOf := func(key string) string { // "<f>.loop[k].inv[n].step" -> "<f>.loop[k].inv[n]"
+		if i := strings.LastIndex(key, "."); i > 0 && (strings.HasSuffix(key, ".init") || strings.HasSuffix(key, ".step")) {
+			return key[:i]
+		}
+		return ""
+	}
+	// functions whose first pass already left unresolvable invariants out
+	for _, fr := range run.funcs {
+		for k, why := range fr.Lapsed {
+			run.lapsed[k] = "names something that no longer exists (" + why + ")"
+		}
+	}
+	for round := 0; round < 3; round++ {
+		cand := map[string]map[string]bool{}
+		for _, r := range rs {
+			if r.Discharged() || !claimed(r.Ob) {
+				continue
+			}
+			if (r.Ob.Kind == "inv-init" || r.Ob.Kind == "inv-step") && len(r.Ob.Tags) == 0 && byFunc[r.Ob.Func] != nil {
+				if cand[r.Ob.Func] == nil {
+					cand[r.Ob.Func] = map[string]bool{}
+				}
+				cand[r.Ob.Func][invOf(r.Ob.Key)] = true
+			}
+		}
+		if len(cand) == 0 {
+			break
+		}
+		changed := false
+		for fn, invs := range cand {
+			for k := range invs {
+				dropInvs[k] = true
+			}
+			fr := verifyFunc(w, byFunc[fn], sweep)
+			ok := fr.Unsupported == ""
+			var obs2 []*Ob
+			for _, ob := range fr.Obs {
+				if sweep && ob.Kind != "nopanic" && ob.Kind != "term" && ob.Kind != "prop" && !contains(ob.Tags, "C08") {
+					continue
+				}
+				obs2 = append(obs2, ob)
+			}
+			var rs2 []*ObResult
+			moreInvs := false
+			if ok {
+				rs2 = p.dischargeAll(obs2, globals)
+				for _, r := range rs2 {
+					if !r.Discharged() && claimed(r.Ob) {
+						if (r.Ob.Kind == "inv-init" || r.Ob.Kind == "inv-step") && len(r.Ob.Tags) == 0 {
+							moreInvs = true
+						} else {
+							ok = false
+						}
+					}
+				}
+			}
+			if !ok {
+				for k := range invs {
+					delete(dropInvs, k) // the original results stand
+				}
+				continue
+			}
+			// use the new results for this function
+			var kept []*ObResult
+			for _, r := range rs {
+				if r.Ob.Func != fn {
+					kept = append(kept, r)
+				}
+			}
+			rs = append(kept, rs2...)
+			for k := range invs {
+				run.lapsed[k] = "no longer provable; the function's other obligations are discharged without it"
+			}
+			for k, why := range fr.Lapsed {
+				run.lapsed[k] = "names something that no longer exists (" + why + ")"
+			}
+			for i, f0 := range run.funcs {
+				if f0.Func.Key == fn {
+					run.funcs[i] = fr
+				}
+			}
+			if moreInvs {
+				changed = true
+			}
+		}
+		if !changed {
+			break
+		}
+	}
+	return rs
 }
 
 func (run *propRun) report(id, tier string, seed int, start time.Time, update bool) int {
@@ -528,9 +671,61 @@ func (run *propRun) report(id, tier string, seed int, start time.Time, update bo
 			}
 		}
 		sort.Strings(missing)
+		// functions that are still executed in this run (some obligation of theirs is present)
+		liveFunc := map[string]bool{}
+		for k := range present {
+			liveFunc[obFunc(k)] = true
+		}
 		for _, k := range missing {
 			if f := isKnown(k); f != nil {
 				continue
+			}
+			// a run-time check site, a recursive call site or a write site that no longer exists in a function that is still
+			// executed is not a loss: these obligations are keyed by the expression, and whatever replaced the expression
+			// has obligations of its own (which are violations when they fail, ledger or not)
+			kind := ledger.Keys[k].Kind
+			if kind == "inv-init" || kind == "inv-step" {
+				if why, isLapsed := run.lapsed[k[:strings.LastIndex(k, ".")]]; isLapsed {
+					// only quiet if the function has no failing claimed obligation (otherwise everything is reported)
+					fnBad := false
+					for _, v := range viols {
+						if obFunc(v.Key) == obFunc(k) {
+							fnBad = true
+						}
+					}
+					if !fnBad {
+						run.notes = append(run.notes, "loop invariant lapsed ("+why+"): "+k)
+						continue
+					}
+				}
+			}
+			if kind == "prop" {
+				// a call site that is gone: quiet as long as the function still has propagation obligations (its clause is
+				// still there and produces one per remaining call site)
+				still := false
+				for pk := range present {
+					if obFunc(pk) == obFunc(k) && strings.Contains(pk, "propagates[") {
+						still = true
+					}
+				}
+				if !still {
+					kind = "prop-lost"
+				}
+			}
+			switch kind {
+			case "nopanic", "term", "own-not-borrowed", "own-moved-once", "own-write-site", "prop":
+				if fn := obFunc(k); liveFunc[fn] {
+					gone := true
+					for _, u := range run.unsupported {
+						if strings.HasPrefix(u, fn+":") {
+							gone = false
+						}
+					}
+					if gone {
+						run.notes = append(run.notes, "site obligation no longer generated (the expression is gone, its function is still verified): "+k)
+						continue
+					}
+				}
 			}
 			why := "the obligation is no longer generated from the working tree (function removed, renamed, or outside the supported subset)"
 			for _, u := range run.unsupported {
